@@ -239,14 +239,14 @@ def run_threaded(spec):
 
     boot.boot(lock_shim=True)
     info = catalog.info(spec["cls"])
-    t0 = time.time()
+    t0 = conc.clock()
     out = {"evaluations": 0, "keys": [], "violations": [], "samples": [], "counters": {}, "strata": {}}
     c = out["counters"]
     keys = set()
     progs, r = threaded_progs(spec)
     mine = [p for i, p in enumerate(progs) if i % spec["pieces"] == spec["piece"]]
     for prog, meta in mine:
-        if time.time() - t0 > E4_BUDGET[spec["tier"]]:
+        if conc.clock() - t0 > E4_BUDGET[spec["tier"]]:
             c["threaded_programs_cut_by_budget"] = c.get("threaded_programs_cut_by_budget", 0) + 1
             continue
         runner = conc.ProgramRunner(prog)
